@@ -214,6 +214,10 @@ func (m *Mapper) FromTuple(ctx context.Context, ts ...*ketoapi.RelationTuple) (r
 
 	for _, t := range ts {
 		t := t
+		if t == nil {
+			// e.g. a JSON `null` element in a batch
+			return nil, ketoapi.ErrIncompleteTuple
+		}
 		n, err := nm.GetNamespaceByName(ctx, t.Namespace)
 		if err != nil {
 			return nil, err
